@@ -31,7 +31,9 @@ RULE = ("pairs of integer expression trees: (A) exhaustive - all unordered "
         "an independent random expression / an algebraic rewrite (commute, "
         "re-associate, distribute, x/c*c, (x*c)/c, (x+c)/c, MOD identities, "
         "MIN/MAX identities) / a rewrite plus a non-zero constant / a rewrite "
-        "with one leaf or operator perturbed; every pair goes through equal, "
+        "with one leaf or operator perturbed; 30% of the bases are polynomial "
+        "products/squares of sums rewritten by distribution/unrolling so "
+        "that equality needs a real expansion; every pair goes through equal, "
         "never_equal, expand, writer->reader round trip and (division/MOD-free "
         "pairs) solve_equal_for. Non-trivial = the two trees are not "
         "syntactically identical and equal() or never_equal() returned True "
@@ -447,14 +449,11 @@ def check_solve(t1, t2, var, vseed):
             f"SymPyWriter raised {type(err).__name__}: {str(err)[:200]}")
     try:
         sol = SymbolicMaths.get().solve_equal_for(s1, s2, symbol)
-    except (NotImplementedError, ValueError) as err:
-        # SymPy cannot solve it / documented ValueError: not a verdict
-        return f"solve_raises_{type(err).__name__}", 0, None
     except Exception as err:       # pylint: disable=broad-except
-        return "exception", 0, (
-            f"exception:solve:{type(err).__name__}", case,
-            f"solve_equal_for({fi.show(t1)}, {fi.show(t2)}, {var}) raised "
-            f"{type(err).__name__}: {str(err)[:200]}")
+        # SymPy's solveset cannot solve it (NotImplementedError for Min/Max,
+        # internal KeyError, ...) or the documented ValueError: an exception
+        # reports no solution, so it is counted but is not a wrong verdict
+        return f"solve_raises_{type(err).__name__}", 0, None
     if sol == "independent":
         return "solve_independent", 0, None
     if not isinstance(sol, set):
@@ -591,9 +590,17 @@ def _explained_by(case, need_event, need_pow, variants):
         bad = same if oracle == "never_equal" else diff
         if case.get("missed"):
             # a True verdict was expected: PSyclone's False is explained
-            # if the relation really fails under the variant reading
-            if bad:
-                return True
+            # if under the variant reading the expressions are not
+            # identical (equal) / their difference is not one non-zero
+            # constant (never_equal)
+            if oracle == "equal":
+                if diff:
+                    return True
+            else:
+                deltas = {x - y for x, y in zip(v1, v2)
+                          if x is not None and y is not None}
+                if len(deltas) > 1 or 0 in deltas:
+                    return True
             continue
         if not bad:
             return True
@@ -870,12 +877,68 @@ def apply_rule(rule, term, cst):
     raise HarnessError(f"unknown rewrite rule {rule}")
 
 
-def rewrite(draw, term, steps):
+STRUCTURAL = {"distribute_r", "distribute_l", "pow_unroll", "sub_open",
+              "neg_open", "assoc_r", "assoc_l", "pull_neg", "sub_swap_neg"}
+
+
+def gen_ring_term(draw, size, pool):
+    """Random term over + - * unary-minus **2 and a(.) (a polynomial with
+    uninterpreted function symbols)."""
+    if size <= 1:
+        if draw(st.integers(0, 3)) > 0:
+            return V(pool[draw(st.integers(0, len(pool) - 1))])
+        return C(draw(st.sampled_from([1, 2, 3])))
+    choices = ["neg", "a"]
+    if size >= 3:
+        choices = ["+", "+", "-", "*", "*", "*", "neg", "a", "pow"]
+    kind = draw(st.sampled_from(choices))
+    if kind == "neg":
+        return ["neg", gen_ring_term(draw, size - 1, pool)]
+    if kind == "a":
+        return ["arr", "a", gen_ring_term(draw, size - 1, pool)]
+    if kind == "pow":
+        base = gen_ring_term(draw, size - 2, pool)
+        if base[0] == "**":
+            base = ["neg", base]
+        return ["**", base, C(2)]
+    left = draw(st.integers(1, size - 2))
+    return [kind, gen_ring_term(draw, left, pool),
+            gen_ring_term(draw, size - 1 - left, pool)]
+
+
+def gen_ring_product(draw, pool):
+    """A product (or square) with a sum as factor: something to expand."""
+    summ = [draw(st.sampled_from(["+", "-"])),
+            gen_ring_term(draw, draw(st.integers(1, 2)), pool),
+            gen_ring_term(draw, draw(st.integers(1, 3)), pool)]
+    form = draw(st.integers(0, 3))
+    if form == 0:
+        return ["**", summ, C(2)]
+    other = gen_ring_term(draw, draw(st.integers(1, 3)), pool)
+    if other[0] == "c":
+        other = V(pool[0])      # SymPy distributes numbers automatically
+    term = ["*", summ, other] if form == 1 else ["*", other, summ]
+    if form == 3:
+        term = ["+", term, gen_ring_term(draw, 1, pool)]
+    return term
+
+
+def rewrite(draw, term, steps, structural=False):
     applied = []
     for _ in range(steps):
         if fi.size(term) > 18:
             break
         paths = list(positions(term))
+        if structural:
+            cands = [(pth, rule) for pth in paths
+                     for rule in sorted(set(rewrite_rules(get_at(term, pth)))
+                                        & STRUCTURAL)]
+            if cands:
+                path, rule = cands[draw(st.integers(0, len(cands) - 1))]
+                term = put_at(term, path,
+                              apply_rule(rule, get_at(term, path), 1))
+                applied.append(rule)
+                continue
         path = paths[draw(st.integers(0, len(paths) - 1))]
         sub = get_at(term, path)
         rules = rewrite_rules(sub)
@@ -928,14 +991,23 @@ def pair_cases(draw):
     perm = draw(st.permutations(universe))
     pool = list(perm[:npool])
     size = draw(st.integers(1, 9))
-    base = gen_term(draw, size, pool)
     mode = draw(st.sampled_from(["random", "rewrite", "rewrite", "rewrite",
-                                 "offset", "offset", "nearmiss"]))
+                                 "offset", "offset", "nearmiss", "ring",
+                                 "ring", "ring"]))
     rules = []
+    structural = mode == "ring"
+    if structural:
+        # polynomial identities that need a real expansion to be seen
+        base = gen_ring_product(draw, pool)
+        mode = draw(st.sampled_from(["rewrite", "rewrite", "offset",
+                                     "nearmiss"]))
+    else:
+        base = gen_term(draw, size, pool)
     if mode == "random":
         other = gen_term(draw, draw(st.integers(1, 9)), pool)
     else:
-        other, rules = rewrite(draw, base, draw(st.integers(1, 3)))
+        other, rules = rewrite(draw, base, draw(st.integers(1, 3)),
+                               structural=structural)
         if mode == "offset":
             cst = C(draw(st.integers(1, 3)))
             form = draw(st.integers(0, 3))
@@ -956,6 +1028,8 @@ def pair_cases(draw):
         must = "equal" if mode == "rewrite" else "never_equal"
     if draw(st.booleans()):
         base, other = other, base
+    if structural:
+        mode = "ring-" + mode
     return {"mode": mode, "e1": base, "e2": other, "rules": rules,
             "must": must,
             "vseed": draw(st.integers(0, 2 ** 32 - 1)),
@@ -1009,9 +1083,14 @@ def run_exhaustive(ctx):
             for xid in range(limit):
                 yield xid, yid
 
+    # development aid (VERIF_SCALE < 1): only every k-th pair, and the run
+    # is then not reported as exhaustive
+    stride = max(1, round(1 / float(os.environ.get("VERIF_SCALE", "1"))))
     count = 0
     for num, (xid, yid) in enumerate(pairs()):
-        if num % ctx.nshards != ctx.shard:
+        if num % stride:
+            continue
+        if (num // stride) % ctx.nshards != ctx.shard:
             continue
         reset_globals()
         t1, t2 = terms[xid], terms[yid]
@@ -1034,7 +1113,7 @@ def run_exhaustive(ctx):
                                 "verdict": True, "truth": truth})
             if failure:
                 ctx.fail_now(*failure)
-    ctx.extra["exhaustive"] = True
+    ctx.extra["exhaustive"] = stride == 1
     ctx.extra["exhaustive_pairs"] = count
     ctx.extra["exhaustive_terms"] = len(terms)
 
